@@ -255,6 +255,10 @@ def atoms_for_enum(vocab):
                     elif k in ('{', 'm'):
                         args.append(([], 'grp', '{', '}', [('T', 'm')]) if form == 'grp'
                                     else ([('W', ' ')], 'tok', 'z'))
+                    elif k in ('AnyDelimited', 'AnyDelimitedOptional'):
+                        args.append(([], 'grp', '(', ')', [('T', 'q')]))
+                    elif k.startswith('e{'):
+                        args.append(([], 'emb', [(k[2], 'tok', 'u')]))
                     elif k[0] in 'rd':
                         args.append(([], 'grp', k[1], k[2], [('T', 'q')]))
                     elif k[0] == 'v':
@@ -267,6 +271,8 @@ def atoms_for_enum(vocab):
                 args.append(None)
             elif k in ('{', 'm'):
                 args.append(([], 'grp', '{', '}', [('T', 'm')]))
+            elif k == 'AnyDelimited':
+                args.append(([], 'grp', '<', '>', [('T', 'q')]))
             elif k[0] == 'r':
                 args.append(([], 'grp', k[1], k[2], [('T', 'q')]))
         if len(args) == len(d['sig']):
@@ -379,6 +385,10 @@ def run_shard(desc, rec):
                         args.append((pre, 'grp', '[', ']', [('T', 'o')]))
                     elif kk in ('{', 'm'):
                         args.append((pre, 'grp', '{', '}', [('T', 'm')]))
+                    elif kk in ('AnyDelimited', 'AnyDelimitedOptional'):
+                        args.append((pre, 'grp', '(', ')', [('T', 'q')]))
+                    elif kk.startswith('e{'):
+                        args.append((pre, 'emb', [(kk[2], 'tok', 'u')]))
                     elif kk[0] in 'rd':
                         args.append((pre, 'grp', kk[1], kk[2], [('T', 'q')]))
                     elif kk[0] == 'v':
